@@ -29,6 +29,31 @@ type Scenario struct {
 	// deviation bound to explore it to.
 	Params func(tier string) []Param
 	Body   func(s *vsched.Sched, p Param)
+	// DescToo: every tuple with a bound >= 1 is explored a second time around the second base
+	// schedule (descending goroutine ids, vsched.Config.Desc).
+	DescToo bool
+}
+
+// AllParams returns the tuples of a tier including the derived "-desc" variants.
+func (sc *Scenario) AllParams(tier string) []Param {
+	ps := sc.Params(tier)
+	if !sc.DescToo {
+		return ps
+	}
+	var out []Param
+	for _, p := range ps {
+		out = append(out, p)
+		if p.Bound >= 1 && p.V["desc"] == 0 {
+			q := p
+			q.Name = p.Name + "-desc"
+			q.V = map[string]int{"desc": 1}
+			for k, v := range p.V {
+				q.V[k] = v
+			}
+			out = append(out, q)
+		}
+	}
+	return out
 }
 
 // Param is one parameter tuple.
